@@ -277,11 +277,11 @@ func populateStruct(originalVal reflect.Value, vs []FieldValueTuple, inputIndex 
 				return inputIndex, false, fmt.Errorf("nested value %s under %s cannot be set", nestedVal, originalVal)
 			}
 
-			if !vs[inputIndex].Value.Type().AssignableTo(nestedVal.Type()) {
+			if !vs[inputIndex].Value.Type().ConvertibleTo(nestedVal.Type()) {
 				return inputIndex, false, fmt.Errorf("error unmangling. Expected type %s. Actual type %s", vs[inputIndex].Value.Type(), nestedVal.Type())
 			}
 			if !isNil(vs[inputIndex].Value) {
-				nestedVal.Set(vs[inputIndex].Value)
+				nestedVal.Set(vs[inputIndex].Value.Convert(nestedVal.Type()))
 				anyChildSet = true
 			}
 			inputIndex++
@@ -293,8 +293,11 @@ func populateStruct(originalVal reflect.Value, vs []FieldValueTuple, inputIndex 
 		return inputIndex, anyChildSet, nil
 	}
 	val := vs[inputIndex].Value
+	if !val.Type().ConvertibleTo(originalVal.Type()) {
+		return inputIndex, false, fmt.Errorf("error unmangling. Expected type %s. Actual type %s", val.Type(), originalVal.Type())
+	}
 	if !isNil(val) {
-		originalVal.Set(val)
+		originalVal.Set(val.Convert(originalVal.Type()))
 		anyChildSet = true
 	}
 	inputIndex++
